@@ -113,4 +113,20 @@ PROPS = {
         statement="quantizer contract (exact and IEEE), bit-packing round trip incl. odd dims",
         partial="nearest level / error bound / clamp / monotone / idempotent are proved for the model's quantizer in exact rational arithmetic; under binary64 they are checked exhaustively on all 2^b codes and breakpoint neighbours (b<=16) bit-for-bit against the model; b=32/64 are conversions checked on the implementation",
     ),
+    "C07": dict(
+        modules=["Syzgy.Props.C07"], ties=["Storage"],
+        runs={"quick": [["store-C07", "--scenarios", "8", "--ops", "150"]],
+              "thorough": [["store-C07", "--scenarios", "40", "--ops", "600"]]},
+        trusted=STORE_TRUST + ["crash model of the property: a store through the shared mapping persists once issued; granularity = one storage call"],
+        statement="recovery from every crash image re-establishes the full invariant; affected document old-or-new",
+        partial="proved: recovery succeeds on every segment image with any zero tail; a zero tail becomes a FREE span; of two active spans of one id exactly the older is released. The lift 'every crash image of every operation is such a segment image and the recovered state satisfies Inv' is tied by byte-exact correspondence at every storage-step boundary (plus continuation and second reopen), not yet a theorem",
+    ),
+    "C09": dict(
+        modules=["Syzgy.Props.C09"], ties=["Storage"],
+        runs={"quick": [["store-C09", "--scenarios", "10", "--ops", "300"]],
+              "thorough": [["store-C09", "--scenarios", "40", "--ops", "3000"]]},
+        trusted=STORE_TRUST,
+        statement="chain grammar + free map = maximal free runs; growth ⇔ no run fits",
+        partial="proved: canonical form of the free map, markFree/getFreeRange keep it canonical with the exact coverage change, the file grows iff no free-map region fits. That the free map equals the maximal FREE runs of the file after every operation is evaluated on the implementation's bytes by an independent grammar walker after every operation (and byte-exactly against the model); the inductive proof over histories is not yet done. 'Steady-state churn is bounded' has no allocator-independent formulation and is monitored only",
+    ),
 }
